@@ -33,3 +33,25 @@ package gitlab
 //@   props C16
 //@   nopanic
 //@   requires client != nil
+
+// Event accessors are deterministic reads of the event value.
+//@ func Event.ID
+//@   purefn
+//@ func Event.Kind
+//@   purefn
+//@ func Event.UserID
+//@   purefn
+//@ func Event.CreatedAt
+//@   purefn
+
+// ensurePerson may create an identity; it never appends an operation to a bug.
+//@ func (*gitlabImporter).ensurePerson
+//@   trusted
+//@   modifies cache.repoWrites
+
+// Importing an event that was already imported (an operation carries its gitlab id) appends nothing,
+// for every event kind except a comment, whose text may have been edited on the tracker.
+//@ func (*gitlabImporter).ensureIssueEvent
+//@   props C16
+//@   requires event != nil
+//@   ensures [idempotent-event] cache.opImported(metaKeyGitlabId, event.ID()) && event.Kind() != EventComment ==> cache.bugOps == old(cache.bugOps)
